@@ -1044,7 +1044,7 @@ class Interp(object):
         if not isinstance(v, SV):
             return z3.StringVal(str(v))
         if k == 'int':
-            return z3.IntToStr(v.t)  # only for non-negative ints; A-BUILTIN
+            return z3.Function('py_str_int', z3.IntSort(), z3.StringSort())(v.t)   # A-BUILTIN: int(str(n)) == n
         if k == 'enum':
             sort, consts, none, cls = enum_sort(v.cls)
             t = z3.StringVal('None')
@@ -1078,6 +1078,12 @@ class Interp(object):
                     except Exception as ex:
                         raise Raised(ex, e)
                 else:
+                    import re as _re
+                    mfix = _re.fullmatch(r'\.(\d+)f', spec) if isinstance(spec, str) else None
+                    if mfix and isinstance(v, SV) and v.kind in NUM:
+                        f = z3.Function('py_fmt_fixed', z3.RealSort(), z3.IntSort(), z3.StringSort())
+                        parts.append(SV('str', f(term(v, 'real'), z3.IntVal(int(mfix.group(1))))))
+                        continue
                     if spec:
                         raise Unsupported('format spec on symbolic value')
                     if isinstance(v, SV) and v.kind == 'int':
@@ -1569,6 +1575,22 @@ def _b_len(self, args, kwargs, node):
     raise Unsupported('len of symbolic value')
 
 
+_DEC = [0]
+
+
+def decimal_fact(t, p):
+    """t is an exact p-decimal, as t * 10^p == ToReal(k) with a fresh integer k (z3 decides this form,
+    unlike IsInt, in combination with bounds)."""
+    _DEC[0] += 1
+    k = z3.Int(f'dec!{_DEC[0]}')
+    return (t * (10 ** p) if p else t) == z3.ToReal(k)
+
+
+def is_decimal_goal(t, p):
+    e = t * (10 ** p) if p else t
+    return e == z3.ToReal(z3.ToInt(e))
+
+
 def _b_round(self, args, kwargs, node):
     v = args[0]
     nd = args[1] if len(args) > 1 else None
@@ -1582,7 +1604,10 @@ def _b_round(self, args, kwargs, node):
     f = z3.Function(f'round_{p}', z3.RealSort(), z3.RealSort())
     r = f(t)
     scale = z3.RealVal(10 ** p)
-    self.run.fact(z3.IsInt(r * scale))
+    self.run.fact(decimal_fact(r, p))
+    dec = z3.Function(f'is_decimal_{p}', z3.RealSort(), z3.BoolSort())
+    self.run.fact(dec(r))                              # the result is an exact p-decimal
+    self.run.fact(z3.Implies(dec(t), r == t))          # rounding an exact p-decimal is the identity (A-REAL)
     self.run.fact(z3.And(r - t <= z3.RealVal(1) / (2 * scale), t - r <= z3.RealVal(1) / (2 * scale)))
     if nd is None:
         return SV('int', z3.ToInt(r))
